@@ -15,11 +15,13 @@ import (
 	"fmt"
 	"go/ast"
 	"go/parser"
+	"go/printer"
 	"go/token"
 	"io/ioutil"
 	"math"
 	"os"
 	"path/filepath"
+	"regexp"
 	"sort"
 	"strconv"
 	"strings"
@@ -211,7 +213,93 @@ func skeletons(repo string) []skel {
 			out = append(out, skeleton(fd, fd.Body, fd.Name.Name))
 		}
 	}
+	out = append(out, runGuards(repo)...)
 	sort.Slice(out, func(i, j int) bool { return out[i].name < out[j].name })
+	return out
+}
+
+// The read-only discipline of EVMInterpreter.Run (interpreter.go), with the receiver and the
+// readOnly parameter renamed to $in / $ro so that renaming them is harmless:
+//   Run.readOnlyEntry : condition of the `if` that sets $in.readOnly = true, and what its body does
+//                       (the assignment and the deferred reset);
+//   Run.readOnlyCheck : condition of the `if $in.readOnly` in the loop and of the write test inside it.
+func runGuards(repo string) []skel {
+	fset := token.NewFileSet()
+	file, err := parser.ParseFile(fset, filepath.Join(repo, "src", "vm", "interpreter.go"), nil, 0)
+	if err != nil {
+		panic(err)
+	}
+	var out []skel
+	for _, d := range file.Decls {
+		fd, ok := d.(*ast.FuncDecl)
+		if !ok || fd.Name.Name != "Run" || fd.Recv == nil || fd.Body == nil || len(fd.Recv.List) == 0 || len(fd.Recv.List[0].Names) == 0 {
+			continue
+		}
+		recv := fd.Recv.List[0].Names[0].Name
+		ro := ""
+		for _, f := range fd.Type.Params.List {
+			if id, ok := f.Type.(*ast.Ident); ok && id.Name == "bool" && len(f.Names) > 0 {
+				ro = f.Names[0].Name
+			}
+		}
+		norm := func(e ast.Node) string {
+			var sb strings.Builder
+			printer.Fprint(&sb, fset, e)
+			t := strings.Join(strings.Fields(sb.String()), " ")
+			t = regexp.MustCompile(`\b`+regexp.QuoteMeta(recv)+`\.`).ReplaceAllString(t, "$$in.")
+			if ro != "" {
+				t = regexp.MustCompile(`(^|[^.\w])`+regexp.QuoteMeta(ro)+`\b`).ReplaceAllString(t, "${1}$$ro")
+			}
+			return t
+		}
+		entry := skel{name: "Run.readOnlyEntry"}
+		check := skel{name: "Run.readOnlyCheck"}
+		ast.Inspect(fd.Body, func(n ast.Node) bool {
+			is, ok := n.(*ast.IfStmt)
+			if !ok {
+				return true
+			}
+			setsFlag := false
+			for _, st := range is.Body.List {
+				if as, ok := st.(*ast.AssignStmt); ok && len(as.Lhs) == 1 && norm(as.Lhs[0]) == "$in.readOnly" {
+					setsFlag = true
+				}
+			}
+			if setsFlag {
+				entry.items = append(entry.items, "if "+norm(is.Cond))
+				for _, st := range is.Body.List {
+					switch v := st.(type) {
+					case *ast.AssignStmt:
+						entry.items = append(entry.items, norm(v))
+					case *ast.DeferStmt:
+						if fl, ok := v.Call.Fun.(*ast.FuncLit); ok {
+							for _, b := range fl.Body.List {
+								entry.items = append(entry.items, "defer "+norm(b))
+							}
+						} else {
+							entry.items = append(entry.items, "defer "+norm(v.Call))
+						}
+					default:
+						entry.items = append(entry.items, "other")
+					}
+				}
+				return true
+			}
+			if norm(is.Cond) == "$in.readOnly" {
+				check.items = append(check.items, "if $in.readOnly")
+				for _, st := range is.Body.List {
+					if inner, ok := st.(*ast.IfStmt); ok {
+						check.items = append(check.items, "if "+norm(inner.Cond))
+						for _, b := range inner.Body.List {
+							check.items = append(check.items, norm(b))
+						}
+					}
+				}
+			}
+			return true
+		})
+		out = append(out, entry, check)
+	}
 	return out
 }
 
